@@ -214,6 +214,14 @@ Proof.
 Qed.
 Print Assumptions C18_prng_waiting_is_stationary.
 
+(* ---- the seed may also be given as a Python int constant, 0 included (every load then loads it):
+   for the LFSR and xoroshiro128+ the seed 0 is the degenerate all-zero stream of the published
+   algorithm (for Trivium key = IV = 0 is an ordinary seed) ---- *)
+Theorem C18_zero_seed_streams : forall n,
+  lfsr_stream n 0 = repeat false n /\ xoro_words n (0, 0) = repeat 0 n.
+Proof. exact zero_seed_streams. Qed.
+Print Assumptions C18_zero_seed_streams.
+
 Definition tv_seed : Z := 0x0100000000000000000000000000000000000000.
 Definition tv_sched : list (Z * Z * Z) :=
   (1, 0, tv_seed) :: repeat (0, 0, 0) 19 ++ (0, 1, 0) :: repeat (0, 0, 0) 3.
